@@ -3,13 +3,15 @@ from common import *
 
 ID = "C27"
 GEN = []
-THEOREMS = ["C27_plain_store_partial", "C27_plain_emit_partial", "C27_plain_quote_unquote_partial", "C27_decode_plain",
+THEOREMS = ["C27_emit_partial", "C27_emit_decode_partial", "C27_length_partial", "C27_quote_unquote_partial",
+            "C27_quote_unquote_units_partial", "C27_unquote_injective_partial", "C27_sq_plain_partial",
+            "C27_plain_store_partial", "C27_plain_emit_partial", "C27_plain_quote_unquote_partial", "C27_decode_plain",
             "C27_refuted_length", "C27_refuted_quote_unquote_newline", "C27_refuted_private_use",
             "C27_refuted_invalid_code_point", "C27_refuted_statement"]
 COQ_HEADER = ("From Coq Require Import String List NArith ZArith.\nFrom RV Require Import Run.C27.\n"
               "Import ListNotations.\nLocal Open Scope list_scope.")
 RUN_EXPR = "Run.C27.run"
-RULE = ("double-quoted literals of 0-10 pieces: plain characters (ASCII incl. hex digits and space, two/three/four-byte, "
+RULE = ("double-quoted (and, a third as many, single-quoted) literals of 0-10 pieces: plain characters (ASCII incl. hex digits and space, two/three/four-byte, "
         "private-use, NBSP, raw tab), raw ', escaped \", hex escapes of 16 code points (letters, quotes, backslash, controls, "
         "space, tab, 0, surrogate, out of range, astral, private use) with 1-6 digits with/without the terminating space, and "
         "character escapes; each literal is printed, measured with str-length, sent through quote(unquote()) and unquote(); "
@@ -17,9 +19,10 @@ RULE = ("double-quoted literals of 0-10 pieces: plain characters (ASCII incl. he
 EXHAUSTIVE = {"quick": False, "thorough": False}
 TRUSTED = ["Spec/CssEsc.v: CSS Syntax level 3 string-token decoding (consume an escaped code point)",
            "the output is split into the four declaration values by the fixed markers `  t: `, `  l: `, `  q: `, `  u: `"]
-ASSUMPTIONS = ["only double-quoted source literals without interpolation and without '#' are modelled (parser/strings.rs dq_parts); "
-               "single-quoted literals, unquoted strings and the interpolation escaper of SassString::evaluate are not",
-               "theorems cover literals without escapes (the class on which rsass is right); everything else is tied by correspondence only"]
+ASSUMPTIONS = ["double- and single-quoted source literals without interpolation and without '#' are modelled (parser/strings.rs dq_parts, "
+               "sass_string_sq); unquoted strings and the interpolation escaper of SassString::evaluate are not",
+               "theorems cover escape-free literals and double-quoted literals built from well-behaved pieces (plain runs, raw apostrophe, escaped quote, "
+               "escaped backslash, space-terminated hex escapes of code points stored as themselves); everything else is tied by correspondence only"]
 
 PLAIN = list("abcdefABCDEF0123456789xyzXYZ  -_.!?,:(){}/+*") + ["é", "中", "\U0001F600", "\ue000", "\uf8ff", "\U000F0000", "\u00a0", "\t", "ß"]
 HEXCP = [0x41, 0x7A, 0xE9, 0x22, 0x27, 0x5C, 0x0A, 0x0D, 0x0C, 0x1F, 0x7F, 0x9F, 0x00, 0x20, 0x09, 0x2D, 0xD800, 0x110000, 0x1F600, 0xE000, 0x10FFFF, 0x30]
@@ -27,7 +30,8 @@ CHARESC = ["x", "-", "\\", " ", "!", "é", "z", "G", "_", "~"]
 HEXD = set("0123456789abcdefABCDEF")
 
 
-def rand_body(rng):
+def rand_body(rng, single=False):
+    own, other = ("'", '"') if single else ('"', "'")
     n = rng.choice([0, 1, 2, 3, 3, 4, 5, 6, 8, 10])
     out = []
     kind_bias = rng.random()
@@ -38,9 +42,9 @@ def rand_body(rng):
         if r < 0.55:
             out.append(rng.choice(PLAIN))
         elif r < 0.60:
-            out.append("'")
+            out.append(other)
         elif r < 0.66:
-            out.append('\\"')
+            out.append("\\" + own)
         elif r < 0.88:
             cp = rng.choice(HEXCP)
             h = "%x" % cp
@@ -50,7 +54,8 @@ def rand_body(rng):
                 h = "0" * rng.randint(1, 6 - len(h)) + h
             out.append(("hex", h, rng.random() < 0.6))
         else:
-            out.append("\\" + rng.choice(CHARESC))
+            # backslash-newline (line continuation) only in single-quoted literals, where rsass reads it right
+            out.append("\\" + rng.choice(CHARESC + (["\n", "\n"] if single else [])))
     # render: a hex escape without terminating space must not be followed by a hex digit (else it is another escape)
     s = ""
     for i, p in enumerate(out):
@@ -70,12 +75,19 @@ CORPUS = ["\\10x", "\\e000 1", "\ue0001", "a\\ ", "a\\ x", "\\d800", "\\110000",
           "\\a 1", "\\a\tx", "\\0", "\\-\\ \\x", "", "plain text", "\\78 y", "\\5c 41 ", "\\1f600 ", "é中\U0001F600", "\\20", "\\20 x", " "]
 
 
+CORPUS_SQ = ["\\10x", "a\\'b", 'a"b', "it\\'s", "x\\\ny", "\\a\\\n1", "a\\ ", "\\22 ", "\\27 ", "plain text", "", "\ue0001", "\\d800",
+             "\\41 b", "a\\\\b", "\\a 1", '\\"']
+
+
 def gen_cases(ctx, tier):
     rng = ctx.rng
-    cases = [{"body": b} for b in CORPUS]
+    cases = [{"body": b, "single": False} for b in CORPUS]
+    cases += [{"body": b, "single": True} for b in CORPUS_SQ]
     n = 900 if tier == "quick" else 9000
     for _ in range(n):
-        cases.append({"body": rand_body(rng)})
+        cases.append({"body": rand_body(rng), "single": False})
+    for _ in range(n // 3):
+        cases.append({"body": rand_body(rng, True), "single": True})
     return cases
 
 
@@ -85,7 +97,9 @@ def search_cases(ctx, broken):
 
 def program(c):
     b = c["body"]
-    return ('a {\n  t: "%s";\n  l: str-length("%s");\n  q: quote(unquote("%s"));\n  u: unquote("%s");\n}\n' % (b, b, b, b))
+    q = "'" if c.get("single") else '"'
+    lit = q + b + q
+    return ('a {\n  t: %s;\n  l: str-length(%s);\n  q: quote(unquote(%s));\n  u: unquote(%s);\n}\n' % (lit, lit, lit, lit))
 
 
 def impl_requests(c):
@@ -137,7 +151,7 @@ def coq_term(c, io):
         impl = "None"
     else:
         impl = "(Some " + clist([ccps(x) for x in fs]) + ")"
-    return f"(mkCase {ccps(c['body'])} {impl})"
+    return f"(mkCase {cbool(c.get('single', False))} {ccps(c['body'])} {impl})"
 
 
 KCLASS = {0: None, 1: "known_C27_K1_length_counts_stored_text", 2: "known_C27_K2_token_denotes_other_string",
@@ -152,7 +166,7 @@ def judge(c, io, r):
         "clauses": [("emitted-token-denotes-string", c1 == 1, KCLASS[k1]), ("length-counts-code-points", c2 == 1, KCLASS[k2]),
                     ("quote-unquote-identity", c3 == 1, KCLASS[k3])],
         "nontrivial": ("\\" in b) or ("'" in b) or any(0xE000 <= ord(ch) <= 0xF8FF or ord(ch) >= 0xF0000 for ch in b),
-        "tags": (["escape"] if "\\" in b else ["plain"]) + (["error"] if io[0][0] == "err" else []),
+        "tags": (["single-quoted"] if c.get("single") else ["double-quoted"]) + (["escape"] if "\\" in b else ["plain"]) + (["error"] if io[0][0] == "err" else []),
         "show": program(c).replace("\n", " "),
         "detail": program(c),
     }
@@ -164,12 +178,13 @@ def shrink(c):
         nb = b[:i] + b[i + 1:]
         if nb.endswith("\\") and not nb.endswith("\\\\"):
             continue
-        yield {"body": nb}
+        yield {"body": nb, "single": c.get("single", False)}
 
 
-LEVEL_TEXT = ("proof (partial): the double-quoted literal reader of parser/strings.rs (escaped_char, normalized_escaped_char_q, "
-              "cleanup_escape_ws), CssString Display/unquote/quote/pref_dquotes are modelled; for every literal without "
-              "escapes the stored text, the emitted token and quote(unquote()) all denote the literal's string (induction); "
+LEVEL_TEXT = ("proof (partial): the double- and single-quoted literal readers of parser/strings.rs (escaped_char, normalized_escaped_char_q, "
+              "cleanup_escape_ws), CssString Display/unquote/quote/pref_dquotes are modelled; for every escape-free literal and every "
+              "double-quoted literal of well-behaved pieces the emitted token is well delimited and denotes the literal's string, unquote yields "
+              "that string and quote(unquote()) is the literal (induction over the pieces with a token-level invariant); "
               "five refuted clauses carry machine-checked witnesses; the model is tied to rsass by code-point-exact comparison "
               "of the printed token, str-length, quote(unquote()) and unquote() on generated literals")
 LEVEL_NOTE = ("the general statement is false in several ways (length counts stored escapes; quote does not re-escape line breaks "
